@@ -97,7 +97,7 @@ def judge(ctx, c):
         sg = np.sign(col[fin])
         has_root[i] = bool(nz[i] and sg.size > 1 and np.any(sg[1:] * sg[:-1] < 0))
     ctx.count("C11.points_with_root_on_scan", int(has_root.sum()))
-    parametric = c["kind"] in ("windsea", "mixed")
+    parametric = c["kind"] in ("windsea", "mixed", "veering")
     ctx.case((c["kind"], pair, "source_terms", dEdt is not None, bool(np.isfinite(c["depth"]).any())),
              nontrivial=bool(has_root.any()),
              sample={"kind": c["kind"], "pair": pair, "u10": u10, "direction": wdir, "dissipation_bulk": dis_bulk})
@@ -192,7 +192,7 @@ def judge(ctx, c):
 
 def make(rng, i):
     pair = ["st4/st4", "st4/st6"][i % 2]
-    kind = ["windsea", "windsea", "mixed", "swell"][i % 4]
+    kind = ["windsea", "veering", "mixed", "swell", "windsea", "mixed", "veering", "swell"][i % 8]
     c = wl.make_case(rng, kind=kind, npoints=int(rng.integers(1, 9)), nd=int(rng.choice([24, 36])))
     E = np.asarray(c["E"])
     # rate-of-change spectrum whose support avoids bins that switch between forced and unforced as U10 varies
